@@ -1,0 +1,14 @@
+//go:build verif
+
+package peer
+
+// VerifYieldHook, when set by the verification harness, is called at the
+// named scheduling points; the harness may block there to choose an
+// interleaving.
+var VerifYieldHook func(point string)
+
+func verifYield(point string) {
+	if h := VerifYieldHook; h != nil {
+		h(point)
+	}
+}
